@@ -422,6 +422,18 @@ def rule_window(ck: Check, repo: Repo, folder: Folder, rid: str = "R5") -> None:
                     repo.loc(dfn))
     if not okr:
         r.violation(dq, "CRLF not folded", "CRLF line endings must be folded to LF before tag search", repo.loc(dfn))
+    # what is decoded is exactly what was read: the window may not be shortened or filtered in between
+    from ..rules import resolve_deep as _rdeep
+    if len(dec) == 1:
+        src_b = _rdeep(dfn, dec[0].func.value)
+        is_read = isinstance(src_b, ast.Call) and isinstance(src_b.func, ast.Attribute) and src_b.func.attr == "read" \
+            and ast.unparse(src_b.func.value) == dfn.args.args[0].arg
+        r.instance(dq + ":bytes", {"decoded_bytes": ast.unparse(src_b)[:80], "exactly_what_was_read": is_read})
+        if not is_read:
+            r.violation(dq, "the bytes read are altered before they are decoded",
+                        f"`{ast.unparse(dec[0].func.value)}` is not the result of `{dfn.args.args[0].arg}.read(…)` alone (it is reassigned, sliced or"
+                        f" filtered first): part of the window - with a slice bound computed from find()/rfind(), possibly all of it when"
+                        f" the separator does not occur - never reaches the tag search", repo.loc(dec[0]))
     # the licence/contributor patterns know only \n as a line break (MULTILINE ^/$; `.` matches \r), while the copyright
     # scan uses str.splitlines(): a lone CR must be folded as well or a tag's value runs on over the following lines
     okc = any([ast.unparse(a) for a in c.args] == ["'\\r'", "'\\n'"] for c in rep) or \
